@@ -17,6 +17,7 @@ import (
 	"strings"
 	"sync"
 	"testing"
+	"time"
 
 	"github.com/google/mtail/internal/runtime/code"
 	"github.com/google/mtail/internal/runtime/vm"
@@ -361,6 +362,81 @@ func TestC04(t *testing.T) {
 		runProgram(r, "pinned witness", pw[0], []string{pw[1]}, cov, &covMu)
 		r.Eval(1)
 	}
+
+	// every arithmetic / bitwise / relational operator and numeric builtin on
+	// RUNTIME operands (captures, so nothing is folded), over all pairs of
+	// boundary values: the VM's arithmetic must raise its checked errors or
+	// compute something, never fault
+	ints := []string{"0", "1", "-1", "2", "-2", "3", "10", "63", "64", "-64", "65", "4294967296", "9007199254740993", "9223372036854775807", "-9223372036854775808", "-9223372036854775807"}
+	floats := []string{"0.0", "-0.0", "1.0", "-1.0", "0.5", "-0.5", "2.5", "1e308", "-1e308", "5e-324", "1e-9", "64.0", "-64.0", "9.3e18"}
+	var ipairs, fpairs []string
+	for _, a := range ints {
+		for _, b := range ints {
+			ipairs = append(ipairs, "i "+a+" "+b)
+		}
+	}
+	for _, a := range floats {
+		for _, b := range floats {
+			fpairs = append(fpairs, "f "+a+" "+b)
+		}
+		for _, b := range ints[:10] {
+			fpairs = append(fpairs, "m "+a+" "+b)
+		}
+	}
+	for _, op := range []string{"+", "-", "*", "/", "%", "**", "<<", ">>", "&", "|", "^", "<", "<=", ">", ">=", "==", "!="} {
+		rel := strings.ContainsAny(op, "<>=!") && op != "<<" && op != ">>"
+		body := func(a, b string) string {
+			if rel {
+				return "  " + a + " " + op + " " + b + " {\n    c++\n  }\n"
+			}
+			return "  g = " + a + " " + op + " " + b + "\n  gk[" + a + " " + op + " " + b + "]++\n"
+		}
+		decls := "gauge g\ngauge gk by k\n"
+		if rel {
+			decls = "counter c\n"
+		}
+		src := decls + "/^i (-?\\d+) (-?\\d+)$/ {\n" + body("$1", "$2") + "}\n"
+		grid := op + " Int"
+		if !runProgram(r, "operator grid "+op+" Int", strings.ReplaceAll(src, "\\n", "\n"), ipairs, cov, &covMu) {
+			r.Count("operator_grid_programs_rejected:"+grid, 1)
+		}
+		r.Eval(1)
+		if !strings.ContainsAny(op, "&|^") && op != "<<" && op != ">>" {
+			fsrc := decls + "/^f (\\S+) (\\S+)$/ {\n" + body("float($1)", "float($2)") + "}\n/^m (\\S+) (-?\\d+)$/ {\n" + body("float($1)", "$2") + body("$2", "float($1)") + "}\n"
+			grid = op + " Float"
+			if !runProgram(r, "operator grid "+op+" Float", strings.ReplaceAll(fsrc, "\\n", "\n"), fpairs, cov, &covMu) {
+				r.Count("operator_grid_programs_rejected:"+grid, 1)
+			}
+			r.Eval(1)
+		}
+	}
+	for _, f := range []string{"int(float($1))", "float($1)", "strtol(\"1\", $1)", "strtol(\"zz\", $1)", "len(string($1))", "settime($1)", "~$1", "-$1"} {
+		stmt := "  g = " + f + "\n"
+		if strings.HasPrefix(f, "settime") {
+			stmt = "  " + f + "\n  g = timestamp()\n"
+		}
+		src := "gauge g\n/^i (-?\\d+) (-?\\d+)$/ {\n" + stmt + "}\n"
+		grid := f
+		if !runProgram(r, "builtin grid "+f, strings.ReplaceAll(src, "\\n", "\n"), ipairs, cov, &covMu) {
+			r.Count("operator_grid_programs_rejected:"+grid, 1)
+		}
+		r.Eval(1)
+	}
+	r.Count("operator_grid_lines", 17*len(ipairs)+12*len(fpairs))
+	// one VM over a long input: thousands of distinct values through every
+	// instruction that keeps per-VM state between lines (strptime's memo)
+	var long []string
+	for i := 0; i < ev.Pick(3000, 20000); i++ {
+		long = append(long, fmt.Sprintf("t=%s n=%d", time.Unix(1600000000+int64(i)*3607, 0).UTC().Format("2006-01-02T15:04:05Z"), i))
+		if i%7 == 6 {
+			long = append(long, long[len(long)-1-(i*13)%len(long)])
+		}
+	}
+	if !runProgram(r, "long history", "counter c by n\ngauge ts\n/t=(\\S+) n=(\\d+)/ {\n  strptime($1, \"2006-01-02T15:04:05Z07:00\")\n  ts = timestamp()\n  c[$2 % 7]++\n}\n", long, cov, &covMu) {
+		r.Inconclusive("the long-history program was rejected by the compiler")
+	}
+	r.Eval(1)
+	r.Count("long_history_lines", len(long))
 
 	n := ev.Pick(4000, 60000)
 	nlines := ev.Pick(12, 16)
